@@ -26,6 +26,25 @@ CHECKS = {
         design="8/C17",
         note=TRUST + "d/du erf(u), the limits erf(ar)/r -> 2a/sqrt(pi), erf -> 1, r^k exp(-a r^2) -> 0, closed-form Gaussian moments; laws of real powers on positive bases.",
         technique="contract-based deductive verification: AST symbolic execution + differentiation operator + atom abstraction, z3/cvc5; bounded multiprecision run-time contracts as labelled stand-in"),
+    "C12": dict(
+        category="proof",
+        text="_get_degree_and_size with a symbolic integer request (by degree, by size, both) for all four methods: result is supported, not below "
+             "the request, least such, paired by the table; raising paths only out of range; loader consistency checks accept the pair; "
+             "AngularGrid.__init__ hands out the data of its own (method, degree) after any other-method construction (cache cells per method); "
+             "convert_angular_sizes_to_degrees element-wise (loop invariant over np.unique with a modular callee contract). Tables are evaluated "
+             "from the module source. Exhaustive native layer: all ~115 000 integer look-ups, every data file, converter and cross-method histories.",
+        design="8/C12",
+        note="integers are mathematical; bisect_left contract on a list checked to be sorted; np.unique contract (sorted distinct values); file content is data (exhaustive layer only).",
+        technique="contract-based deductive verification: AST symbolic execution + VC generation, z3; exhaustive native enumeration as labelled stand-in for data files"),
+    "C13": dict(
+        category="proof",
+        text="Index maps mutually inverse for symbolic 2-D/3-D shapes; Tensor1DGrids point/weight layout and UniformGrid point layout through the "
+             "pointful model of meshgrid/vstack/reshape/swapaxes/kron/dot (lemma chains for the mixed-radix arithmetic); Rectangle/Trapezoid/"
+             "Alternative weights uniform with weight-sum bound sum 1/M_i (NRA). Clauses outside symbolic reach (molecule boxes, nearest node, "
+             "cube files, interpolation, Fourier schemes) are decided only by the bounded native layer, labelled bounded.",
+        design="8/C13",
+        note=TRUST + "det by Leibniz formula; bounded layer for text I/O, SciPy splines and sine-series weights; two recorded findings (Fourier2, from_molecule).",
+        technique="contract-based deductive verification: AST symbolic execution with pointful NumPy semantics + lemma chains, z3; bounded run-time contracts as labelled stand-in"),
 }
 NOT_YET = {}
 
